@@ -56,7 +56,7 @@ def fn_results(summary):
         return out
     for m in summary.get("times-ms", {}).get("smt", {}).get("smt-run-module-times", []):
         for f in m.get("function-breakdown", []):
-            name = f["function"].split("::")[-1]
+            name = "::".join(f["function"].split("::")[1:])   # drop the crate name
             prev = out.get(name)
             ok = f.get("success", False) and (prev[0] if prev else True)
             out[name] = (ok, f.get("time", 0) + (prev[1] if prev else 0), f.get("rlimit", 0) + (prev[2] if prev else 0))
@@ -166,7 +166,7 @@ def check_template(template, repo, workdir, prop, exclude=None, rlimit=None, thr
             res["status"] = "undecided"
             res["undecided"].append("resource limit: %s" % d["message"])
     for u, d in mine.items():
-        fn = d["fn"]
+        fn = d.get("qual") or d["fn"]
         ok, ms, rl = fr.get(fn, (None, 0, 0))
         res["units"][u] = dict(fn=fn, clauses=d["clauses"], ok=ok, time_ms=ms, rlimit=rl, drops=d["drops"], desc=d["desc"])
         if ok is None:
